@@ -176,9 +176,9 @@ CAPS = [8, 16, 16, 20, 24, 32, 32, 40, 48, 64, 64, 100, 128, 256, 1024]
 def generate(rng, tier):
     cases = []
     i = 0
-    n_sched = 900 if tier == "quick" else 24000
-    n_free = 120 if tier == "quick" else 3000
-    n_mach = 3 if tier == "quick" else 40
+    n_sched = 500 if tier == "quick" else 10000
+    n_free = 60 if tier == "quick" else 1200
+    n_mach = 2 if tier == "quick" else 20
     # a. the witness schedule of theorem C32_without_recheck_duplicate (with the re-check it is harmless)
     cases.append(mk_case(i, "AS", 64, [["\x01\x02\x03\x04\x05\x06\x07\x08"]] * 2, "witness",
                          [0, 0, 0, 0, 1, 1, 1, 1, 0, 0, 0, 0, 0, 0, 1, 1, 1, 1, 1, 1]))
